@@ -1912,11 +1912,13 @@ def scalar_leaves(prog, f, operand, depth=4, out=None, sites=None):
             tg = [t for t in prog.resolve(c) if t in prog.fns]
             if tg and depth > 0:
                 for t in tg:
-                    g = prog.fns[t]
-                    decision_leaves(prog, g, depth - 1, out)
+                    g = prog.body_of(t) or prog.fns[t]
+                    decision_leaves(prog, g, depth - 1, out, sites)
                 for a in c.args:
                     scalar_leaves(prog, f, a, depth, out, sites)
             elif c.name in ('saturating_sub', 'checked_sub', 'wrapping_sub', 'unwrap_or', 'unwrap_or_default', 'min', 'max', 'cmp', 'ge', 'le', 'gt', 'lt', 'eq', 'ne', 'is_ge', 'is_le', 'is_gt', 'is_lt', 'is_eq'):
+                if sites is not None:
+                    sites.append((c.name, f.id, c.bb))
                 for a in c.args:
                     scalar_leaves(prog, f, a, depth, out, sites)
             else:
@@ -1934,16 +1936,20 @@ def scalar_leaves(prog, f, operand, depth=4, out=None, sites=None):
     return out
 
 
-def decision_leaves(prog, f, depth=4, out=None):
+def decision_leaves(prog, f, depth=4, out=None, sites=None):
     """leaves of everything a small pure function's result depends on: the data that flows into the return value and the
     operands of every branch in its body (`a && b` is control flow in MIR)"""
     if out is None:
         out = set()
-    scalar_leaves(prog, f, 0, depth, out)
+    scalar_leaves(prog, f, 0, depth, out, sites)
+    aw = {a.switch_bb for a in f.awaits()} if f.is_coroutine else set()
     for i in f.reachable():
         t = f.blocks[i]['t']
-        if t['k'] == 'switch':
-            scalar_leaves(prog, f, t['o'], depth, out)
+        if t['k'] == 'switch' and i not in aw:
+            ogs = origins(f, t['o'])
+            if ogs and all(o.kind == 'call' and o.data.from_expansion for o in ogs):
+                continue    # branches of log / format macros
+            scalar_leaves(prog, f, t['o'], depth, out, sites)
     return out
 
 
